@@ -125,13 +125,14 @@ def transform(text):
     # statics holding loom types: loom's constructors are not const
     def static_repl(m):
         nonlocal n
-        attrs, vis, name, ty, init = m.group(1) or "", m.group(2) or "", m.group(3), m.group(4), m.group(5)
+        vis, name, ty, init = m.group(1) or "", m.group(2), m.group(3), m.group(4)
         if not (TYPE_HINT.search(ty) or TYPE_HINT.search(init)):
             return m.group(0)
         n += 1
-        return f"{attrs}loom::lazy_static! {{ {vis}static ref {name}: {ty} = {init}; }}"
+        return f"loom::lazy_static! {{ {vis}static ref {name}: {ty} = {init}; }}"
 
-    text = re.sub(r"(?ms)^((?:[ \t]*#\[[^\]]*\]\s*)*)[ \t]*(pub(?:\([a-z]+\))? )?static (?!ref\b)(?!mut\b)([A-Z_][A-Z0-9_]*)\s*:\s*([^=;]+?)\s*=\s*([^;]+);", static_repl, text)
+    # anywhere an item can stand (module level, or in the middle of a block on one line)
+    text = re.sub(r"(?s)(?<![\w!])(pub(?:\([a-z]+\))? )?static\s+(?!ref\b)(?!mut\b)([A-Z_][A-Z0-9_]*)\s*:\s*((?:[^=;{}\[\]]|\[[^\]]*\])+?)\s*=\s*([^;]+);", static_repl, text)
     return text, n
 
 
